@@ -52,11 +52,11 @@ fn check(ctx: &Ctx, acc: &mut Acc, cfg: &Cfg, hist: &[Op]) {
 
 /// a set_orientation whose k-th low-level operation fails, then the drawing alphabet: every burst is still framed by a
 /// window inside the framebuffer as the controller sees it (whatever the driver now believes about its orientation)
-fn after_failed_orientation(cfg: &Cfg, o2: u8, k: u64, ops: &[Op]) -> (bool, Option<(String, String)>) {
+fn after_failed_orientation(cfg: &Cfg, o2: u8, k: u64) -> (bool, usize, Option<(String, String)>) {
     let mut rig = Rig::new(cfg);
     rig.ctl.keep_cmds = true;
     if !rig.init.is_ok() {
-        return (false, None);
+        return (false, 0, None);
     }
     let at = rig.ops() + k;
     let fired0 = rig.bd.borrow().failed_ops.len();
@@ -64,32 +64,36 @@ fn after_failed_orientation(cfg: &Cfg, o2: u8, k: u64, ops: &[Op]) -> (bool, Opt
     let _ = rig.apply(&Op::SetOrientation(o2));
     rig.set_faults(&[]);
     if rig.bd.borrow().failed_ops.len() == fired0 {
-        return (false, None);
+        return (false, 0, None);
     }
     rig.ctl.viols.clear();
+    // the in-bounds alphabet of the orientation the display now reports (a failed call may or may not have taken effect;
+    // set_pixel / set_pixels are only defined inside the reported size)
+    let o = rig.dut.as_ref().unwrap().orientation();
+    let (lw, lh) = crate::spec::Geo { orient: o, ..cfg.geo() }.lsize();
+    let ops = c01::alphabet(lw, lh, false);
     for (i, op) in ops.iter().enumerate() {
         let cmd0 = rig.ctl.cmds.len();
         let out = rig.apply(op);
-        let mk = |kind: &str, m: String| Some((format!("{}/after-failed-set_orientation/{kind}", op.name()), format!("set_orientation({o2}) failed at its low-level operation {k}; then drawing operation #{i} {op:?}: {m}")));
+        let mk = |kind: &str, m: String| Some((format!("{}/after-failed-set_orientation/{kind}", op.name()), format!("set_orientation({o2}) failed at its low-level operation {k}, the display reports orientation {o}; then drawing operation #{i} {op:?}: {m}")));
         if let Outcome::Panic(m) | Outcome::NonTermination(m) = &out {
-            return (true, mk("panic", m.clone()));
+            return (true, ops.len(), mk("panic", m.clone()));
         }
         if let Some(v) = rig.ctl.viols.first() {
-            return (true, mk(viol_kind(v), format!("controller protocol violation: {v:?}")));
+            return (true, ops.len(), mk(viol_kind(v), format!("controller protocol violation: {v:?}")));
         }
         if let Some(m) = framing_check(&rig, cmd0, !matches!(op, Op::SetPixels { .. })) {
-            return (true, mk("framing", m));
+            return (true, ops.len(), mk("framing", m));
         }
     }
-    (true, None)
+    (true, ops.len(), None)
 }
 
 pub fn replay_fault(case: &serde_json::Value) -> i32 {
     let cfg: Cfg = serde_json::from_value(case["cfg"].clone()).unwrap();
-    let ops: Vec<Op> = serde_json::from_value(case["history"].clone()).unwrap();
     let (o2, k) = (case["o2"].as_u64().unwrap() as u8, case["k"].as_u64().unwrap());
-    println!("{cfg:?}: set_orientation({o2}) with low-level operation {k} failing, then {} drawing operations", ops.len());
-    match after_failed_orientation(&cfg, o2, k, &ops).1 {
+    println!("{cfg:?}: set_orientation({o2}) with low-level operation {k} failing, then the in-bounds drawing alphabet of the orientation the display reports");
+    match after_failed_orientation(&cfg, o2, k).2 {
         Some((s, m)) => {
             println!("REPLAY: {s} -- {m}");
             1
@@ -143,18 +147,17 @@ fn run(ctx: &Ctx) -> Part {
             acc.count("chained_programs_with_orientation_change", 1);
             // failed orientation change (every fault position), then the drawing alphabet of the old geometry
             if cfg.fb() == (4, 3) || cfg.fb() == (3, 2) {
-                let ops = c01::alphabet(lw, lh, false);
                 for k in 0..64u64 {
-                    let (fired, f) = after_failed_orientation(cfg, o2, k, &ops);
+                    let (fired, nops, f) = after_failed_orientation(cfg, o2, k);
                     if !fired {
                         break;
                     }
                     acc.evaluations += 1;
                     acc.nontrivial += 1;
-                    acc.transitions += 1 + ops.len() as u64;
+                    acc.transitions += 1 + nops as u64;
                     acc.count("programs_after_failed_orientation_change", 1);
                     if let Some((sig, msg)) = f {
-                        acc.violation(Violation { prop: ctx.prop.clone(), sig, msg, case: json!({"kind": "c08-fault", "variant": ctx.variant, "cfg": cfg, "o2": o2, "k": k, "history": ops}) });
+                        acc.violation(Violation { prop: ctx.prop.clone(), sig, msg, case: json!({"kind": "c08-fault", "variant": ctx.variant, "cfg": cfg, "o2": o2, "k": k}) });
                     }
                 }
             }
